@@ -16,7 +16,8 @@ RULE = ("Hypothesis rule-based state machine over one simulated node and a harne
         "them the node's own address; a 130-address pool in the thorough tier): manager steps with drawn clock increments "
         "(0..4000 s), outgoing connects established or refused, remote close before/after the greeting, greetings with drawn "
         "nonce (own nonce = self-connection) and listening port, peer announcements over the address set (known, connected, own, "
-        "non-IPv4-mapped entries), incoming connections that reuse a (host, port) key. Real DiskInterface.write_peers in a "
+        "non-IPv4-mapped entries; in particular announcements of addresses that are currently waiting for reconnection), incoming "
+        "connections that reuse a (host, port) key. Real DiskInterface.write_peers in a "
         "private cwd, with the crash injector on drawn saves. Oracle after EVERY event: connected and waiting sets disjoint, "
         "nothing escaped; every start_outgoing_connection is checked against a per-address reference (last attempt, k = "
         "consecutive attempts ended without greeting): t-last >= min(10*2^k, 1800), none once k exceeds the maximum, none to "
@@ -236,6 +237,9 @@ class Exec:
         for (h, p, d), peer in nm.disconnected_peers.items():
             if d == self.RP.OUTGOING and (h, p) in self.book and peer.ban_score != self.book[(h, p)][1]:
                 self.fail("book", "failure-count-differs", "%s: %s:%s has failure count %d, reference k=%d" % (where, h, p, peer.ban_score, self.book[(h, p)][1]))
+            if d == self.RP.OUTGOING and (h, p) in self.book and peer.last_connection_attempt != self.book[(h, p)][0]:
+                self.fail("book", "previous-attempt-forgotten", "%s: the record of the previous attempt to %s:%s changed from %r to %r without an attempt (the back-off interval is measured from it)" % (
+                    where, h, p, self.book[(h, p)][0], peer.last_connection_attempt))
 
     def step(self, op):
         simnet, M, RP = self.simnet, self.M, self.RP
@@ -320,6 +324,17 @@ class Exec:
                     if j % 7 != 6 and a not in self.book and key not in self.node.nm.connected_peers and key not in self.node.nm.disconnected_peers:
                         self.book[a] = [None, 0]
                 self.send(c, M.PeersMessage(peers))
+        elif k == "peers_waiting":
+            # a greeted peer announces an address that is currently WAITING for reconnection (a known address)
+            from ipaddress import IPv6Address
+            live = [c for c in self.conns if c.alive and c.remote is not None and c.greeted]
+            waiting = sorted((h, p) for (h, p, d) in self.node.nm.disconnected_peers if d == RP.OUTGOING)
+            if not live or not waiting:
+                return
+            c = live[op[1] % len(live)]
+            h, p = waiting[op[2] % len(waiting)]
+            self.send(c, M.PeersMessage([M.Peer(0, IPv6Address("::FFFF:%s" % h), p)]))
+            self.flags["announcements_of_waiting_addresses"] = self.flags.get("announcements_of_waiting_addresses", 0) + 1
         elif k == "crash_next_save":
             self.crash_next = True
         self.pump()
@@ -360,8 +375,11 @@ class Machine(RuleBasedStateMachine):
         except env.HarnessError:
             raise
         except Exception as e:
-            self.ex.fail("harness_exception", "exc:" + exc_sig(e), repr(e))
-            Machine.res.error("executor raised %r" % (e,))
+            if exc_sig(e).endswith("@None"):          # raised by the harness itself (no frame of the code under test)
+                Machine.res.error("executor raised %r" % (e,))
+                self.dead = True
+            else:
+                self.ex.fail("exception", "exc:" + exc_sig(e), "op %s raised %r" % (op[0], e))
         if self.ex.fails:
             self.dead = True
 
@@ -392,6 +410,10 @@ class Machine(RuleBasedStateMachine):
     @rule(i=st.integers(0, 20), lst=st.lists(st.integers(0, 200), max_size=5))
     def peers(self, i, lst):
         self.do(["peers", i, lst])
+
+    @rule(i=st.integers(0, 20), j=st.integers(0, 50))
+    def announce_waiting(self, i, j):
+        self.do(["peers_waiting", i, j])
 
     @rule(i=st.integers(0, 20))
     def close(self, i):
